@@ -32,6 +32,10 @@ else:
     )
 
 
+# suffixes (without the leading dot) of the supported formats
+COMPRESSION_FORMATS = ('gz', 'bz2', 'lzma', 'xz')
+
+
 def open_compressed_file(suffix, f, mode='rb'):
     """
     Get a file-like object for an open compressed file @fileobj
